@@ -68,8 +68,12 @@ def report_live_bad(chk, res, flat):
             ev = json.loads(flat[item["line"] - 1])
             start = max(i for i in range(item["line"]) if '"ev":"Reset"' in flat[i])
             pre = flat[start:item["line"]]
+            cfg0 = json.loads(flat[start]).get("cfg") or ""
             if any('"ev":"Discard"' in x for x in pre) and any('"ev":"Opened"' in x for x in pre):
                 sig = "live:precommit-embeds-stale-binary-linking-root-after-discard-and-restart"
+            elif "second-level" in cfg0 and "Ext:true" in cfg0:
+                # continuation on a crash image of a workload that discarded precommitted txs: the hash tree recovered with stale leaves
+                sig = "recovery:binary-linking-inconsistent-after-discarded-precommits"
             else:
                 sig = "live:precommit-embeds-wrong-binary-linking-root"
             chk.violation(sig, "tx %d was precommitted with a BlRoot that is not the Merkle root over the accumulated hashes of txs 1..%d (config %s)"
